@@ -236,6 +236,19 @@ theorem refsOk_mono {S S' : Store} {r : Rule} (hs : S'.services = S.services) (h
   simp only [Bool.and_eq_true] at h ⊢
   exact ⟨⟨epOk_mono hg h.1.1, epOk_mono hg h.1.2⟩, by rw [svcOk_of_services hs]; exact h.2⟩
 
+theorem refsOk_mono' {S S' : Store} {r : Rule} (hs : ∀ id, hasService S id = true → hasService S' id = true)
+    (hg : GroupsLE S S') (h : refsOk S r = true) : refsOk S' r = true := by
+  unfold refsOk at *
+  simp only [Bool.and_eq_true] at h ⊢
+  refine ⟨⟨epOk_mono hg h.1.1, epOk_mono hg h.1.2⟩, ?_⟩
+  have h3 := h.2
+  unfold svcOk at h3 ⊢
+  cases hr : serviceRef r.service with
+  | none => rfl
+  | some x =>
+    simp only [hr] at h3 ⊢
+    exact hs x h3
+
 theorem refsOk_intro {S : Store} {r : Rule} (h1 : epOk S r.src = true) (h2 : epOk S r.dst = true)
     (h3 : svcOk S r.service = true) : refsOk S r = true := by
   simp [refsOk, h1, h2, h3]
